@@ -1043,6 +1043,24 @@ class PandasModelBase(
             on_b = [scratch_col]
             left[scratch_col] = 1
             right[scratch_col] = 1
+        null_guard_col = None  # extra key keeping rows with missing keys from matching each other
+        if scratch_col is None:
+            left_null = left[on_a].isnull().any(axis=1).to_numpy()
+            right_null = right[on_b].isnull().any(axis=1).to_numpy()
+            if left_null.any() and right_null.any():
+                # pandas.merge matches missing key values with each other, SQL joins never do:
+                # give every row with a missing key its own value in an additional key column
+                null_guard_col = "data_algebra_temp_null_key_col"
+                while (null_guard_col in left.columns) or (null_guard_col in right.columns):
+                    null_guard_col = null_guard_col + "_"  # never capture a user column
+                left[null_guard_col] = numpy.where(
+                    left_null, -(numpy.arange(left.shape[0]) + 1), 0
+                )
+                right[null_guard_col] = numpy.where(
+                    right_null, numpy.arange(right.shape[0]) + 1, 0
+                )
+                on_a = on_a + [null_guard_col]
+                on_b = on_b + [null_guard_col]
         # noinspection PyUnresolvedReferences
         res = self.pd.merge(
             left=left,
@@ -1056,6 +1074,8 @@ class PandasModelBase(
         self.drop_indices(res)
         if scratch_col is not None:
             del res[scratch_col]
+        if null_guard_col is not None:
+            del res[null_guard_col]
         on_a_set = set(op.on_a)
         for c in common_cols:
             if c not in on_a_set:
